@@ -193,9 +193,48 @@ func checkC09History(c Node) Verdict {
 	return v
 }
 
+// the same selector text on two documents in a row: the second result must not remember the first
+func checkC09Repeat(c Node) Verdict {
+	freshCounter++
+	// a text this process has not evaluated yet: the leading key is renamed apart in both documents
+	suffix := fmt.Sprintf("r%dx%d", Seed%1000, freshCounter)
+	fc := freshen(any(c), suffix, map[string]bool{"a": true}).(map[string]any)
+	text := SelectorText(seq(fc["sel"]))
+	sig := append(selFeatures(seq(fc["sel"])), "same-text-other-document")
+	desc := fmt.Sprintf("ExecReader(doc1, %q) ; ExecReader(doc2, %q)", text, text)
+	v := Verdict{OK: true, SQL: desc, Sig: sig, Execs: 2, Nontrivial: true}
+	for i, pair := range [][2]any{{fc["docbefore"], fc["resdocbefore"]}, {fc["doc"], fc["res"]}} {
+		doc := FromTagged(pair[0])
+		pristine := DeepCopy(doc)
+		want := pair[1].(Node)
+		got, err, pan := execReader(doc, text)
+		if pan != nil {
+			return fail("panic", desc, sig, "panic: %v", pan)
+		}
+		switch want["t"] {
+		case "any":
+		case "err":
+			if err == nil {
+				return fail("noerror", desc, sig, "document %d: specification: error; got %s", i+1, Canon(got))
+			}
+		default:
+			if err != nil || !Equal(got, FromTagged(want)) {
+				return fail("result", desc, sig, "document %d: want %s got %s (err %v)", i+1, Canon(FromTagged(want)), Canon(got), err)
+			}
+		}
+		if !Equal(doc, pristine) {
+			return fail("docmut", desc, sig, "document %d was modified", i+1)
+		}
+	}
+	return v
+}
+
 func checkC09(c Node) Verdict {
 	if b, ok := c["before"].([]any); ok && len(b) > 0 {
 		return checkC09History(c)
+	}
+	if d, ok := c["docbefore"].(Node); ok && d["t"] == "obj" {
+		return checkC09Repeat(c)
 	}
 	sel := seq(c["sel"])
 	text := SelectorText(sel)
